@@ -52,6 +52,7 @@ class Builder:
         self.recency_bias = True
         self.allow_empty = False
         self.const_flag_odds = 11
+        self.ufunc_options = False
         self.allow_const_false = False
 
     # ---- low-level emit
@@ -464,7 +465,29 @@ def step_unary(b: Builder, name=None):
     elif name == "hard_tanh":
         lo = d(st.sampled_from([-1.0, -0.5, -2.0]))
         p = {"lo": lo, "hi": lo + d(st.sampled_from([1.0, 2.0, 3.5]))}
+    p.update(draw_ufunc_options(b, name, [b.shape(a)]))
     return b.op(name, [a], p, constant=draw_const_flag(b) if not name.startswith("op_") else None)
+
+
+def draw_ufunc_options(b, name, shapes):
+    """where= / dtype= for ufunc spellings (only when enabled on the builder)"""
+    if not b.ufunc_options or name not in R.UFUNC_NAMES:
+        return {}
+    d = b.draw
+    out = {}
+    r = d(st.integers(0, 7))
+    if r in (0, 1):
+        shape = list(np.broadcast_shapes(*[tuple(s_) for s_ in shapes]))
+        k = d(st.integers(0, len(shape)))
+        wshape = [1 if d(st.integers(0, 4)) == 0 else x for x in shape[k:]]
+        n = int(np.prod(wshape)) if wshape else 1
+        out["where"] = d(st.lists(st.booleans(), min_size=n, max_size=n))
+        out["wshape"] = wshape
+        b.labels.add("where_mask")
+    if r in (1, 2):
+        out["dtype"] = d(st.sampled_from(["float32", "float64"]))
+        b.labels.add("dtype_option")
+    return out
 
 
 def draw_const_flag(b, is_view=False):
@@ -527,7 +550,8 @@ def step_binary(b: Builder, name=None):
         name = {"op_add": "add", "op_sub": "subtract", "op_mul": "multiply", "op_truediv": "divide",
                 "op_pow": "power"}[name]
     kw_const = draw_const_flag(b) if not name.startswith("op_") else None
-    return b.op(name, args, None, constant=kw_const)
+    p = draw_ufunc_options(b, name, [b.shape(h) for h in args]) or None
+    return b.op(name, args, p, constant=kw_const)
 
 
 def step_reduce(b: Builder, name=None):
